@@ -1,2 +1,5 @@
 import BufrProps.C10
+#print axioms Bufr.C10.C10_static_refines
+#print axioms Bufr.C10.C10_rejects
+#print axioms Bufr.C10.C10_rejects_unknown
 #print axioms Bufr.C10.C10_factor_count
